@@ -34,6 +34,103 @@ fn list_fields(l: &NodeList) -> String {
     )
 }
 
+/// "( Kind sl sc el ec fields" of a single node (no children, not closed)
+pub fn dump_one<'a>(n: &'a AstNode<'a>, out: &mut String) {
+                let ast = n.data.borrow();
+    let sp = ast.sourcepos;
+    let (kind, fields): (&str, String) = match &ast.value {
+        NodeValue::Document => ("Document", String::new()),
+        NodeValue::FrontMatter(s) => ("FrontMatter", h(s)),
+        NodeValue::BlockQuote => ("BlockQuote", String::new()),
+        NodeValue::List(l) => ("List", list_fields(l)),
+        NodeValue::Item(l) => ("Item", list_fields(l)),
+        NodeValue::DescriptionList => ("DescriptionList", String::new()),
+        NodeValue::DescriptionItem(d) => ("DescriptionItem", format!("{} {} {}", d.marker_offset, d.padding, b(d.tight))),
+        NodeValue::DescriptionTerm => ("DescriptionTerm", String::new()),
+        NodeValue::DescriptionDetails => ("DescriptionDetails", String::new()),
+        NodeValue::CodeBlock(c) => (
+            "CodeBlock",
+            format!("{} {} {} {} {} {}", b(c.fenced), c.fence_char, c.fence_length, c.fence_offset, h(&c.info), h(&c.literal)),
+        ),
+        NodeValue::HtmlBlock(x) => ("HtmlBlock", format!("{} {}", x.block_type, h(&x.literal))),
+        NodeValue::Paragraph => ("Paragraph", String::new()),
+        NodeValue::Heading(x) => ("Heading", format!("{} {}", x.level, b(x.setext))),
+        NodeValue::ThematicBreak => ("ThematicBreak", String::new()),
+        NodeValue::FootnoteDefinition(x) => ("FootnoteDefinition", format!("{} {}", h(&x.name), x.total_references)),
+        NodeValue::Table(t) => {
+            let al: String = t
+                .alignments
+                .iter()
+                .map(|a| match a {
+                    TableAlignment::None => 'n',
+                    TableAlignment::Left => 'l',
+                    TableAlignment::Center => 'c',
+                    TableAlignment::Right => 'r',
+                })
+                .collect();
+            (
+                "Table",
+                format!("{} {} {} {}", t.num_columns, t.num_rows, t.num_nonempty_cells, if al.is_empty() { "-".to_string() } else { al }),
+            )
+        }
+        NodeValue::TableRow(hd) => ("TableRow", b(*hd).to_string()),
+        NodeValue::TableCell => ("TableCell", String::new()),
+        NodeValue::Text(s) => ("Text", h(s)),
+        NodeValue::TaskItem(c) => (
+            "TaskItem",
+            match c {
+                None => "n".to_string(),
+                Some(ch) => format!("s{}", h(&ch.to_string())),
+            },
+        ),
+        NodeValue::SoftBreak => ("SoftBreak", String::new()),
+        NodeValue::LineBreak => ("LineBreak", String::new()),
+        NodeValue::Code(c) => ("Code", format!("{} {}", c.num_backticks, h(&c.literal))),
+        NodeValue::HtmlInline(s) => ("HtmlInline", h(s)),
+        NodeValue::Raw(s) => ("Raw", h(s)),
+        NodeValue::Emph => ("Emph", String::new()),
+        NodeValue::Strong => ("Strong", String::new()),
+        NodeValue::Strikethrough => ("Strikethrough", String::new()),
+        NodeValue::Superscript => ("Superscript", String::new()),
+        NodeValue::Link(l) => ("Link", format!("{} {}", h(&l.url), h(&l.title))),
+        NodeValue::Image(l) => ("Image", format!("{} {}", h(&l.url), h(&l.title))),
+        NodeValue::FootnoteReference(r) => ("FootnoteReference", format!("{} {} {}", h(&r.name), r.ref_num, r.ix)),
+        NodeValue::Math(m) => ("Math", format!("{} {} {}", b(m.dollar_math), b(m.display_math), h(&m.literal))),
+        NodeValue::MultilineBlockQuote(m) => ("MultilineBlockQuote", format!("{} {}", m.fence_length, m.fence_offset)),
+        NodeValue::Escaped => ("Escaped", String::new()),
+        NodeValue::WikiLink(w) => ("WikiLink", h(&w.url)),
+        NodeValue::Underline => ("Underline", String::new()),
+        NodeValue::Subscript => ("Subscript", String::new()),
+        NodeValue::SpoileredText => ("SpoileredText", String::new()),
+        NodeValue::EscapedTag(s) => ("EscapedTag", h(s)),
+        NodeValue::Alert(a) => (
+            "Alert",
+            format!(
+                "{} {} {} {} {}",
+                match a.alert_type {
+                    AlertType::Note => 0,
+                    AlertType::Tip => 1,
+                    AlertType::Important => 2,
+                    AlertType::Warning => 3,
+                    AlertType::Caution => 4,
+                },
+                match &a.title {
+                    None => "n".to_string(),
+                    Some(t) => format!("s{}", h(t)),
+                },
+                b(a.multiline),
+                a.fence_length,
+                a.fence_offset
+            ),
+        ),
+    };
+    out.push_str(&format!("( {} {} {} {} {}", kind, sp.start.line, sp.start.column, sp.end.line, sp.end.column));
+    if !fields.is_empty() {
+        out.push(' ');
+        out.push_str(&fields);
+    }
+}
+
 pub fn dump<'a>(n: &'a AstNode<'a>, out: &mut String) {
     // iterative to survive deep trees
     enum Ev<'a> {
